@@ -14,7 +14,11 @@ JCertAcc(fn, in, rr, cls) ==
   LET c == RefReadCert(in)  a == rr.acc IN
   << R("C02", "cert_fields", c.ok /\ HasAcc(rr),
        a.type_ok /\ a.type = c.type /\ a.len_ok /\ a.len = c.len /\ a.data_ok /\ a.data = c.payload
-       /\ a.bytes = Take(in, c.consumed) /\ a.valid, cls) >>
+       /\ a.bytes = Take(in, c.consumed) /\ a.valid, cls),
+     \* the package-level getters expose the key types of a KEY certificate (payload >= 4) and refuse anything else
+     R("C02", "certificate_type_getters", c.ok /\ HasAcc(rr) /\ "getsig_ok" \in DOMAIN a,
+       /\ a.getsig_ok = IsKeyCert(c) /\ a.getcrypto_ok = IsKeyCert(c)
+       /\ (IsKeyCert(c) => a.getsig = KeyCertSigType(c) /\ a.getcrypto = KeyCertCryptoType(c)), cls) >>
 
 JKeyCertAcc(fn, in, rr, cls) ==
   LET c == RefReadCert(in)  a == rr.acc
@@ -26,7 +30,16 @@ JKeyCertAcc(fn, in, rr, cls) ==
        /\ a.sigsize = (IF SigKnown(st) THEN SigLen(st) ELSE 0)
        /\ a.spksize = (IF SigKnown(st) THEN SigPubLen(st) ELSE 0)
        /\ a.cryptosize = (IF CryptoKnown(ct) THEN CryptoPubLen(ct) ELSE 0)
-       /\ a.cpksize_ok = CryptoKnown(ct) /\ (CryptoKnown(ct) => a.cpksize = CryptoPubLen(ct)), cls) >>
+       /\ a.cpksize_ok = CryptoKnown(ct) /\ (CryptoKnown(ct) => a.cpksize = CryptoPubLen(ct)), cls),
+     \* keys constructed through the key certificate: the encryption key is the START of the 256-byte field, a signing key the END
+     \* of the 128-byte field (or the exact-size key itself); the lengths returned are the declared ones; short data is refused
+     R("C10", "constructed_keys_have_declared_length_and_alignment", good /\ "cpk_ok" \in DOMAIN a,
+       /\ (ct \in {0, 4} => a.cpk_ok /\ a.cpk = Take(a.field256, CryptoPubLen(ct)))
+       /\ (a.cpk_ok /\ CryptoKnown(ct) /\ ct \in {0, 4} => Len(a.cpk) = CryptoPubLen(ct))
+       /\ a.cpk_short_rejected
+       /\ (st \in {0, 1, 2} => a.cspk128_ok /\ a.cspk128 = Drop(a.field128, 128 - SigPubLen(st)))
+       /\ ((st \in LibSigTypes /\ SigPubLen(st) <= 128) => a.cspk_exact_ok /\ a.cspk_exact = Take(a.field128, SigPubLen(st)))
+       /\ (SigKnown(st) => a.cspk_short_rejected), cls) >>
 
 JIdentityAcc(fn, in, rr, e, cls) ==
   LET r == RefIdentity(fn, in)
